@@ -1,5 +1,5 @@
-(* Ldhcp4 — DHCPv4 codec (layers/dhcpv4.go): contributions to C19, C05, C06 (partial), C07, C01. *)
-From GP Require Import Base Codec MiscLib Ldhcp4Model Ldhcp4Proofs.
+(* Ldhcp4 — DHCPv4 codec (layers/dhcpv4.go): contributions to C19, C05, C06, C07, C01. *)
+From GP Require Import Base Codec MiscLib Ldhcp4Model Ldhcp4Proofs Ldhcp4Ser Ldhcp4Rt.
 Open Scope Z_scope.
 
 Theorem C19_dhcp4_no_panic : forall orig old data, bytes_ok data -> is_panic (snd (fst (dh_decode_gen orig old data))) = false.
@@ -48,20 +48,25 @@ Print Assumptions C07_dhcp4_junk_free.
 Theorem C01_dhcp4_render_total : forall orig old data, dh_render_panics (fst (fst (dh_decode_gen orig old data))) = false.
 Proof. reflexivity. Qed.
 
-(* C06: stated, not proved (partial) — covered by the correspondence runs and the C06 oracle *)
-Definition dh_wf (l : dhcp) : Prop :=
-  0 <= h_op l < 256 /\ 0 <= h_htype l < 256 /\ 0 <= h_hops l < 256 /\ 0 <= h_xid l < 4294967296 /\ 0 <= h_secs l < 65536 /\ 0 <= h_flags l < 65536 /\
-  zlen (h_ciaddr l) = 4 /\ zlen (h_yiaddr l) = 4 /\ zlen (h_siaddr l) = 4 /\ zlen (h_giaddr l) = 4 /\ zlen (h_chaddr l) <= 16 /\
-  zlen (h_sname l) = 64 /\ zlen (h_file l) = 128 /\
-  bytes_ok (h_ciaddr l ++ h_yiaddr l ++ h_siaddr l ++ h_giaddr l ++ h_chaddr l ++ h_sname l ++ h_file l) /\
-  Forall (fun o => 0 <= do_type o < 255 /\ zlen (do_data o) <= 255 /\ bytes_ok (do_data o) /\ (do_type o = 0 -> do_data o = [] /\ do_len o = 0)) (h_options l).
-Definition C06_dhcp4_roundtrip_statement : Prop := forall l csum junk bytes l' old,
+(* C06 (repaired serializer, FixLengths): octet/16-bit/32-bit fields in range, 4-octet addresses, a hardware address of at most 16
+   octets, 64/128-octet sname/file, options other than End with at most 255 data octets (Pad without data), nothing under the
+   layer: decoding the written bytes into any object gives the fields, HardwareLen as fixed, the addresses and byte fields, and the
+   options as FixLengths left them (Length = len(Data)); Contents is the whole message; no error, no truncation. *)
+Theorem C06_dhcp4_roundtrip : forall l csum junk bytes l' old,
   dh_wf l -> dh_serialize l [] true csum junk = (Ok bytes, l') ->
   exists d, dh_decode_into old bytes = (d, Ok tt, false) /\ h_contents d = bytes /\
     (h_op d, h_htype d, h_hlen d, h_hops d, h_xid d, h_secs d, h_flags d) = (h_op l, h_htype l, zlen (h_chaddr l), h_hops l, h_xid l, h_secs l, h_flags l) /\
     (h_ciaddr d, h_yiaddr d, h_siaddr d, h_giaddr d, h_chaddr d, h_sname d, h_file d) =
       (h_ciaddr l, h_yiaddr l, h_siaddr l, h_giaddr l, h_chaddr l, h_sname l, h_file l) /\
     h_options d = h_options l'.
+Proof. exact dh_roundtrip. Qed.
+Print Assumptions C06_dhcp4_roundtrip.
+
+(* closed form of the repaired serializer under dh_wf *)
+Theorem C07_dhcp4_closed_form : forall l csum junk, dh_wf l ->
+  dh_serialize l [] true csum junk = (Ok (dh_hdr l ++ concat (map dh_obytes (h_options l)) ++ [255]), dh_l2 l).
+Proof. exact dh_serialize_closed. Qed.
+Print Assumptions C07_dhcp4_closed_form.
 
 Example Ldhcp4_nonvacuous :
   exists l, dh_decode_into dh_fresh (dh_hdr240 ++ [53;1;1;0;255;7]) = (l, Ok tt, false) /\
